@@ -1072,7 +1072,7 @@ def c09(R, ctx):
 # ----------------------------------------------------------------------------- C11
 
 
-@runner("C11", level="other")
+@runner("C11", level="proof")
 def c11(R, ctx):
     C = Cases(R.rng, ctx["tier"])
     cases = C.wellformed(per_type=1, per_cc=1, corpus_n=80)
@@ -1090,9 +1090,10 @@ def c11(R, ctx):
             R.violation(sig, "%s: %s" % (c[1], r[:300]), replay_of(c, "1", r, {"how": "harness/impl_worker.py: objs %s %s" % (c[1], h(c[2]))}))
     R.coverage["conversions_checked"] = ok
     R.coverage["not_accepted"] = na
-    R.coverage["explanation"] = ("events_to_obj/obj_to_events are not modelled: object/event conversions are checked on the implementation "
+    R.coverage["explanation"] = ("obj_to_events is modelled (Model/Object.v) and proved to reproduce the decoded events from the decoder's object; "
+                                 "events_to_obj is not modelled: the conversions are also checked on the implementation "
                                  "(by-product == rebuilt, both back to the decoded events incl. value classes, re-encoding == input); the decoder's "
-                                 "by-product object is compared with the Coq model's")
+                                 "by-product object and obj_to_events of it are compared with the Coq model's")
     oreqs = ["obj cur %s %s" % (c[1], h(c[2])) for c in cases]
     impl = common.run_impl("impl_worker", oreqs)
     model = common.run_model(oreqs) if ctx["driver_ok"] else impl
@@ -1102,6 +1103,25 @@ def c11(R, ctx):
     for k in bad:
         R.violation("correspondence:C11", "model and implementation build different objects for `%s`" % oreqs[k][:200],
                     {"request": oreqs[k], "implementation": impl[k][:2000], "model": model[k][:2000], "theorem": "correspondence by-product object"}, found_input=False)
+        break
+    # obj_to_events of the by-product object: Model/Object.v against common/object.py
+    ereqs = ["objev cur %s %s" % (c[1], h(c[2])) for c in cases]
+    eimpl = common.run_impl("impl_worker", ereqs)
+    emodel = common.run_model(ereqs) if ctx["driver_ok"] else eimpl
+    ebad = [k for k in range(len(ereqs)) if eimpl[k] != emodel[k]]
+    R.coverage.update({"obj_to_events_cases": len(ereqs), "obj_to_events_disagreements": len(ebad),
+                       "obj_to_events_nontrivial": sum(1 for x in eimpl if x.startswith("E ")),
+                       "obj_to_events_compares": "every event obj_to_events yields for the returned object (path, declared type, value / Ellipsis), in order"})
+    for k in ebad:
+        # a concrete input on which the implementation's obj_to_events differs from the decoded events is a replay
+        dec = common.run_impl("impl_worker", ["dec cur 1 %s %s" % (cases[k][1], h(cases[k][2]))])[0]
+        decoded = ";".join(" ".join(x.split(" ")[:-1]) for x in dec.split(";")[:-1])
+        found = dec.endswith("ACC") and decoded != eimpl[k]
+        R.violation("c11:obj_to_events" if found else "correspondence:C11-objev",
+                    ("obj_to_events of the decoder's object differs from the decoded events for `%s`" if found else
+                     "model and implementation obj_to_events differ for `%s`") % ereqs[k][:200],
+                    {"request": ereqs[k], "implementation": eimpl[k][:2000], "model": emodel[k][:2000], "decoded_events": decoded[:2000],
+                     "theorem": "C11_returned_object_turns_back_into_the_decoded_events / correspondence obj_to_events"}, found_input=found)
         break
     r1, _ = engine(R, ctx, cases, modes=("1",))
     distribution(R, cases, r1["1"][1])
@@ -1369,6 +1389,7 @@ def c08(R, ctx):
             y = C.size_faults((x[0], x[1], x[2], b[3]), per=1)
             cases += y[:1]
     cases += C.arbitrary(n=250)
+    cases += C.orphan_responses(n=24)
     allc = cases + vcases
     res, _ = engine(R, ctx, allc, modes=("0",))
     reqs, impl, model = res["0"]
@@ -1382,7 +1403,7 @@ def c08(R, ctx):
             sig = ("crash:" + io[6:], "warn-mode decoding of %s aborted with an internal error: %s" % (c[1], io))
         elif io.startswith("RAISE"):
             f = io.split(" ")
-            if not (f[1] == "V" and f[5] in ("cc", "sel")):
+            if not (f[1] == "V" and f[5] in ("cc", "sel", "nocc")):
                 sig = ("raise:" + f[1], "warn-mode decoding of %s raised %s (only an unknown command code or an unselecting selector may raise)" % (c[1], io[:160]))
         elif io in ("DEP", "SUP") or io.startswith("DEP ") or io.startswith("SUP "):
             sig = ("raise:" + io[:3], "warn mode raised instead of warning: " + io)
